@@ -304,7 +304,7 @@ func staleWrites(c *Ctx, sel func(key string) bool) {
 					continue
 				}
 				for _, u := range unlocks[class] {
-					if instrReaches(ld, u) && instrReaches(u, st) {
+					if instrReaches(ld, u) && instrReachesAvoiding(u, st, ld) {
 						c.Fail("stale-write", p.FuncKey(fn)+"/"+k, p.InstrPos(st), fmt.Sprintf("%s is overwritten under %s with a value computed from a read of it at %s in an earlier critical section (the lock is released at %s in between): updates made by other goroutines in the gap are lost", k, class, p.InstrPos(ld), p.InstrPos(u)))
 						return
 					}
@@ -385,7 +385,7 @@ func staleWrites(c *Ctx, sel func(key string) bool) {
 					}
 					isStale := false
 					for _, u := range unlocks[class] {
-						if instrReaches(l, u) && instrReaches(u, mu) && !instrReaches(u, l) {
+						if instrReaches(l, u) && instrReachesAvoiding(u, mu, l) && !instrReachesAvoiding(u, l, mu) {
 							isStale = true
 							staleAt = u
 						}
@@ -574,6 +574,51 @@ func mayPanicCall(c ssa.CallInstruction) bool {
 	}
 	if strings.HasPrefix(name, "dyn:") {
 		return true
+	}
+	return false
+}
+
+// instrReachesAvoiding: some path leads from a to b without executing `avoid` again on the way (the
+// same read repeated in the next loop iteration starts a new round and does not count).
+func instrReachesAvoiding(a, b, avoid ssa.Instruction) bool {
+	ab := avoid.Block()
+	if a.Block() == b.Block() && valueIndex(a) < valueIndex(b) {
+		if !(ab == a.Block() && valueIndex(avoid) > valueIndex(a) && valueIndex(avoid) < valueIndex(b)) {
+			return true
+		}
+	}
+	// leave a's block (the rest of it must not contain avoid)
+	if ab == a.Block() && valueIndex(avoid) > valueIndex(a) {
+		return false
+	}
+	seen := map[*ssa.BasicBlock]bool{}
+	var walk func(blk *ssa.BasicBlock) bool
+	walk = func(blk *ssa.BasicBlock) bool {
+		if seen[blk] {
+			return false
+		}
+		seen[blk] = true
+		if blk == b.Block() {
+			// b must come before avoid in this block
+			if !(ab == blk && valueIndex(avoid) < valueIndex(b)) {
+				return true
+			}
+			return false
+		}
+		if blk == ab {
+			return false
+		}
+		for _, s := range blk.Succs {
+			if walk(s) {
+				return true
+			}
+		}
+		return false
+	}
+	for _, s := range a.Block().Succs {
+		if walk(s) {
+			return true
+		}
 	}
 	return false
 }
